@@ -11,10 +11,10 @@
     draw_state}, DrawState::draw_to_term).  [step_panics W H fails s now o] = the first site the
     real code hits when it executes call [o] in state [s]; [None] = the call returns.
 
-    Definitions only (proofs: IndProofs.SysPanicProofs).  Line numbers: /repo HEAD f8fa07f.
+    Definitions only (proofs: IndProofs.SysPanicProofs).  Line numbers: /repo HEAD 7d42cff.
     19 sites of the current code + 1 historical ([P_draw_adjust_add], module [Pre_f8fa07f]).
     Every `+` / `-` on VisualLines / usize of src/multi.rs and src/draw_target.rs is either
-    saturating or one of: draw_target.rs:552 (-), :567 (-), :594 (+=), :630 (+), multi.rs:492 (-)
+    saturating or one of: draw_target.rs:560 (-), :575 (-), :605 (+=), :642 (+), multi.rs:492 (-)
     - the five arithmetic sites below - or listed as total after [psite].
 
     Conventions / what the guards abstract:
@@ -46,7 +46,7 @@ Inductive psite :=
 | P_draw_extra_assert              (* multi.rs:302  `debug_assert_eq!(extra_lines.is_some(), len > 0)` *)
 | P_draw_scan_index                (* multi.rs:312  `&self.members[index]` in the zombie scan *)
 | P_draw_adjust_add                (* HISTORICAL - not a site of the current code: multi.rs:324 was `adjust += line_count`
-                                      (-> draw_target.rs:675, unchecked) before fix f8fa07f made it `saturating_add`;
+                                      (-> draw_target.rs:687, unchecked) before fix f8fa07f made it `saturating_add`;
                                       only [Pre_f8fa07f] (the guards of the OLD code, kept for the regression theorem) yields it *)
 | P_draw_compose_index             (* multi.rs:357  `&self.members[*index]` while composing the frame *)
 (* --- MultiState::draw_state (Drawable::state() of a member) *)
@@ -61,30 +61,30 @@ Inductive psite :=
 | P_remove_assert                  (* multi.rs:484  `assert_eq!(self.len(), self.ordering.len(), ..)` *)
 | P_len_sub                        (* multi.rs:492  `self.members.len() - self.free_set.len()` (unchecked) *)
 (* --- DrawState::draw_to_term, src/draw_target.rs *)
-| P_dt_shift_sub                   (* draw_target.rs:552 `*bar_count - full_height` -> :689 `self.0 - rhs.0` *)
-| P_dt_pad_sub                     (* draw_target.rs:567 `shift.as_usize() - usize::from(full_screen_padding)` *)
-| P_dt_real_add                    (* draw_target.rs:594 `real_height += line_height` -> :675 *)
-| P_dt_count_add.                  (* draw_target.rs:630 `real_height + shift` -> :669 `self.0 + rhs.0` *)
+| P_dt_shift_sub                   (* draw_target.rs:560 `*bar_count - full_height` -> :701 `self.0 - rhs.0` *)
+| P_dt_pad_sub                     (* draw_target.rs:575 `shift.as_usize() - usize::from(full_screen_padding)` (fix 881c313) *)
+| P_dt_real_add                    (* draw_target.rs:605 `real_height += line_height` -> :687 *)
+| P_dt_count_add.                  (* draw_target.rs:642 `real_height + shift` -> :681 `self.0 + rhs.0` *)
 
 (** Operations of the same functions that were inspected and are total (so: no constructor):
     multi.rs:431 `self.members.len() - 1` (right after a push); :438 `ordering.insert(min(pos,
     len), ..)`, :442 `insert(len.saturating_sub(pos), ..)`, :446 `insert(pos + 1, ..)`, :450
     `insert(pos, ..)` with `pos < len` from `position` (Vec::insert panics only for an index
     > len); :277/:324/:378 `saturating_add` (:324 since fix f8fa07f); :274/:375 `Ord::min`; :359 `&state.lines[..]`;
-    draw_target.rs:289/:290/:328/:329 saturating; :525/:534/:541 `saturating_sub(1)`;
-    :537 `i + 1` (i < n); :603/:607 `idx + 1` (idx < lines.len()); :610-613 saturating;
-    :614 `" ".repeat(filler)` (filler < width, see C14 SITE_REPEAT); :644 `&self.lines[..]`
-    (only ever called with the full range `..`); :696-698 saturating fold; :712 float -> usize
+    draw_target.rs:289/:290/:328/:329 saturating; :533/:542/:549 `saturating_sub(1)`; :527-529 the cap of `*bar_count` at the terminal height (fix 7d42cff, a comparison and an assignment);
+    :545 `i + 1` (i < n); :619 `idx + 1` (idx < lines.len()); :622-625 saturating;
+    :626 `" ".repeat(filler)` (filler < width, see C14 SITE_REPEAT); :656 `&self.lines[range]`
+    (only ever called with the full range `..`); :707-711 saturating fold; :724 float -> usize
     cast saturates (x/0 = inf -> usize::MAX, 0/0 = NaN -> 0). *)
 
 (** LineType::wrapped_height as the Rust code computes it, INCLUDING width 0
-    (src/draw_target.rs:709-718): `(cols as f64 / 0.0).ceil() as usize` is usize::MAX for a
+    (src/draw_target.rs:721-730): `(cols as f64 / 0.0).ceil() as usize` is usize::MAX for a
     non-empty line and 0 (then max 1) for an empty one.  For W >= 1 it is [Text.wrapped_height]
     (the model of Sys.v, which is NOT faithful at W = 0: it gives 1 row there). *)
 Definition wrapped_height_rs (l : line) (W : N) : N :=
   if W =? 0 then (if lwidth l =? 0 then 1 else USIZE_MAX) else wrapped_height l W.
 
-(* visual_line_count, src/draw_target.rs:695-699: a saturating fold *)
+(* visual_line_count, src/draw_target.rs:707-711: a saturating fold *)
 Definition visual_line_count_rs (ls : list line) (W : N) : N :=
   fold_left (fun acc l => N.min USIZE_MAX (acc + wrapped_height_rs l W)) ls 0.
 
@@ -99,8 +99,8 @@ Definition oob {A} (l : list A) (i : N) : bool := N.of_nat (length l) <=? i.
     [Text.wrapped_height] (1 row for every line at W = 0).  For W >= 1 and counts below 2^64 the two
     agree ([SysPanicProofs.dt_count_rs_model]). *)
 
-(** the paint loop (draw_target.rs:577-616): `real_height += line_height` (:594) runs for a Bar
-    line that passed the `break` test `real_height.saturating_add(line_height) > term.height()` (:583) *)
+(** the paint loop (draw_target.rs:588-628): `real_height += line_height` (:605) runs for a Bar
+    line that passed the `break` test `real_height.saturating_add(line_height) > term.height()` (:594) *)
 Fixpoint paint_panics (ls : list line) (W H real : N) : option psite :=
   match ls with
   | [] => None
@@ -122,13 +122,14 @@ Fixpoint paint_real_rs (ls : list line) (W H real : N) (bar_painted : bool) : N 
       else paint_real_rs r W H (if is_bar l then real + h else real) (bar_painted || is_bar l)
   end.
 
-(** `*bar_count - full_height` of the arm `Bottom if full_height < *bar_count` (:552), else 0 *)
+(** `*bar_count - full_height` of the arm `Bottom if full_height < *bar_count` (:560), else 0;
+    [n] is the count AFTER the cap of :527-529 *)
 Definition dt_shift0 (ls : list line) (n : N) (al : alignment) (W : N) : N :=
   let full := visual_line_count_rs ls W in
   match al with Bottom => if full <? n then n - full else 0 | Top => 0 end.
 
-(** the value written to last_line_count at :630: `real_height + shift`, `shift` reset to 0 at
-    :619-622 when no padding is on the screen *)
+(** the value written to last_line_count at :642: `real_height + shift`, `shift` reset to 0 at
+    :631-634 when no padding is on the screen; [n] is the count AFTER the cap of :527-529 *)
 Definition dt_count_rs (ls : list line) (n : N) (al : alignment) (W H : N) : N :=
   let '(real, bar_painted) := paint_real_rs ls W H 0 false in
   real + (if negb (starts_with_text ls) || bar_painted then dt_shift0 ls n al W else 0).
@@ -136,17 +137,21 @@ Definition dt_count_rs (ls : list line) (n : N) (al : alignment) (W H : N) : N :
 (** DrawState::draw_to_term on [ls] with last_line_count [n] (the terminal calls are not
     partial; see the header for `?`) *)
 Definition dt_panics (ls : list line) (n : N) (al : alignment) (below : bool) (W H : N) : option psite :=
+  (* :527-529 (fix 7d42cff) - `if *bar_count > screen_height { *bar_count = screen_height }`: every
+     use of the count below sees the capped value *)
+  let n := N.min n H in
   let full := visual_line_count_rs ls W in
   let in_arm := match al with Bottom => full <? n | Top => false end in
-  (* :552 - the subtraction is evaluated in the match arm `Bottom if full_height < *bar_count` only *)
+  (* :560 - the subtraction is evaluated in the match arm `Bottom if full_height < *bar_count` only *)
   if in_arm && (n <? full) then Some P_dt_shift_sub else
   let shift0 := dt_shift0 ls n al W in
-  (* :567 - evaluated when `padded`; `usize::from(full_screen_padding)` is 1 or 0 *)
+  (* :575 - evaluated when `padded`; `usize::from(full_screen_padding)` is 1 or 0, and
+     full_screen_padding (:572-573) requires `shift > 0` *)
   if negb (starts_with_text ls) && full_pad ls shift0 H && (shift0 <? 1) then Some P_dt_pad_sub else
   match paint_panics ls W H 0 with
   | Some p => Some p
   | None =>
-      (* :630 - `*bar_count = real_height + shift` *)
+      (* :642 - `*bar_count = real_height + shift` *)
       if USIZE <=? dt_count_rs ls n al W H then Some P_dt_count_add else None
   end.
 
@@ -737,14 +742,10 @@ Definition misuse_site (s : sys) (o : op) : option psite :=
   | _ => None
   end.
 
-(* ------------------------------------------------------------------ hypotheses of the theorems *)
-(** the row counters of a state leave room for two more screens (usize arithmetic) *)
-Definition counters_fit (s : sys) : Prop :=
-  (forall b tg, b_target (get_bar s b) = TTerm tg -> tt_n tg + 2 * U16 <= USIZE)
-  /\ (forall tg, ms_target (s_mp s) = TTerm tg ->
-        tt_n tg + ms_zombie_lines (s_mp s) + 2 * U16 <= USIZE).
-
-(** a run that also returns the first panic: [None] = every call returned *)
+(* ------------------------------------------------------------------ histories *)
+(** Since fix 7d42cff (the count is capped at the terminal height before it is used) no guard
+    depends on the magnitude of last_line_count / zombie_lines_count any more: the theorems
+    need no hypothesis about the counters. *)
 Fixpoint run_panics (W H : N) (fails : N -> bool) (s : sys) (ops : list (N * op)) : option (nat * psite) :=
   match ops with
   | [] => None
@@ -765,26 +766,7 @@ Fixpoint run_panics_pre_f8fa07f (W H : N) (fails : N -> bool) (s : sys) (ops : l
       end
   end.
 
-(** the hypothesis [counters_fit] on every state a history visits *)
-Fixpoint hist_fits (W H : N) (fails : N -> bool) (s : sys) (ops : list (N * op)) : Prop :=
-  match ops with
-  | [] => True
-  | (now, o) :: r =>
-      counters_fit s /\ hist_fits W H fails (step_sys W H fails s now o) r
-  end.
-
 (** decidable forms of the hypotheses (for the Examples) *)
-Definition target_fits_b (extra : N) (t : target) : bool :=
-  match t with TTerm tg => tt_n tg + extra + 2 * U16 <=? USIZE | _ => true end.
-Definition counters_fit_b (s : sys) : bool :=
-  forallb (fun x => target_fits_b 0 (b_target x)) (s_bars s)
-  && target_fits_b (ms_zombie_lines (s_mp s)) (ms_target (s_mp s)).
-Fixpoint hist_fits_b (W H : N) (fails : N -> bool) (s : sys) (ops : list (N * op)) : bool :=
-  match ops with
-  | [] => true
-  | (now, o) :: r =>
-      counters_fit_b s && hist_fits_b W H fails (step_sys W H fails s now o) r
-  end.
 Fixpoint hist_ok_b (W H : N) (fails : N -> bool) (s : sys) (ops : list (N * op)) : bool :=
   match ops with
   | [] => true
@@ -819,16 +801,3 @@ Definition np_ops2 : list (N * op) :=
    (3, OSuspend 1 [[65]]); (4, OMSuspend [[66]; [67]]); (5, ORemove 3); (6, OMPrintln [112]);
    (7, OFinish 0 FAndLeave); (7, ODrop 0); (8, ODrop 2); (9, OMClear); (10, OTick 1); (11, OFinish 1 FAndClear); (12, ODrop 1)].
 Definition np_fails2 : N -> bool := fun k => (k =? 7) || (30 <=? k) && (k <? 40).
-
-(* ------------------------------------------------------------------ fresh targets, bounded histories *)
-(** every row counter of the state is 0: freshly created draw targets (ProgressDrawTarget::term*
-    start with last_line_count = 0, MultiState::new with zombie_lines_count = 0) *)
-Definition counters_zero (s : sys) : Prop :=
-  Forall (fun x => match b_target x with TTerm tg => tt_n tg = 0 | _ => True end) (s_bars s)
-  /\ target_n (ms_target (s_mp s)) + ms_zombie_lines (s_mp s) = 0.
-Definition counters_zero_b (s : sys) : bool :=
-  forallb (fun x => match b_target x with TTerm tg => tt_n tg =? 0 | _ => true end) (s_bars s)
-  && (target_n (ms_target (s_mp s)) + ms_zombie_lines (s_mp s) =? 0).
-
-(** 2^46 calls: below that the counters cannot come near usize::MAX (they grow by <= 2 * H per call) *)
-Definition CALLS_MAX : N := 70368744177664.
